@@ -103,7 +103,7 @@ func baseKey(name string) string {
 
 func explicitKind(k string) bool {
 	switch {
-	case k == "ensures", k == "invariant-init", k == "invariant-step", k == "decreases", k == "assert", k == "assigns", k == "unwind", k == "vacuity", k == "ground", k == "frozen", k == "split-exhaustive":
+	case k == "ensures", k == "invariant-init", k == "invariant-step", k == "decreases", k == "assert", k == "assigns", k == "unwind", k == "vacuity", k == "ground", k == "frozen", k == "split-exhaustive", k == "spec-termination", k == "measure":
 		return true
 	case strings.HasPrefix(k, "requires@"):
 		return true
